@@ -18,8 +18,12 @@
        are heap objects too, so "a new instance", "shares the field object", "shares no mutable
        object" are statements about references.
 
-   The type checker is NOT modelled: `check : heap -> ann -> value -> bool` is a Section variable
-   and annotations are opaque tokens (C01/C02 are about the checker).  No proofs in this file. *)
+   The type checker is NOT modelled here: `check : bool -> heap -> ann -> value -> outcome unit`
+   (assert_value_matches_type: returns or raises) is a Section variable and annotations are opaque
+   tokens (C01/C02 are about the checker; Model/DataclassEval.v plugs in Model/Checker.v).  The
+   boolean is the one thing about the `context` argument that depends on the call path: whether the
+   frame picked by get_context(...) is the caller's (so that names local to the caller resolve).
+   No proofs in this file. *)
 From Coq Require Import List ZArith Bool Arith.
 From PV Require Import Base.Exn.
 Import ListNotations.
@@ -31,6 +35,7 @@ Inductive value := VAtom (a : Z) | VRef (r : nat).
 
 Inductive okind :=
 | KList | KDict
+| KOther (tag : nat)          (* any other copyable container: set, deque, tuple holding mutable objects ... *)
 | KUser (c : nat)             (* instance of a plain user class *)
 | KSelfCopy (c : nat)         (* instance of a user class whose __deepcopy__ returns self *)
 | KData (c : nat).            (* instance of the (frozen data)class with identifier c *)
@@ -83,6 +88,8 @@ Record layer := mkLayer {
 Definition chain := list layer.
 
 Inductive event := EPi (c : nat) | ECheck (a : ann) (v : value).
+(* how the generated __init__ was reached *)
+Inductive via := VCtor | VCopy | VDeep.
 Record state := mkSt { s_heap : heap; s_journal : list event }.
 
 Definition M (A : Type) := state -> state * outcome A.
@@ -149,7 +156,9 @@ Definition is_dnone (d : dflt) : bool := match d with DNone => true | _ => false
 
 Section Sem.
   Variable P : prog.
-  Variable check : heap -> ann -> value -> bool.      (* assert_value_matches_type accepts *)
+  (* assert_value_matches_type(value, field.type, context): `Ok tt` or the exception it raises.
+     First argument: the context contains the caller's frame. *)
+  Variable check : bool -> heap -> ann -> value -> outcome unit.
 
   Definition decorated (L : layer) : bool := is_some (l_deco L).
   Definition param_of (L : layer) (p : dparam) : bool :=
@@ -239,22 +248,22 @@ Section Sem.
     | None => s
     | Some (p, pol) => filter (fun f => Bool.eqb (fpred_eval p f) pol) s
     end.
-  Fixpoint check_loop (fs : list field) (r : nat) : M unit :=
+  Fixpoint check_loop (vis : bool) (fs : list field) (r : nat) : M unit :=
     match fs with
     | [] => ret tt
     | f :: rest =>
       bindM (getattrM r (f_name f)) (fun v =>
       bindM (emit (ECheck (f_ann f) v)) (fun _ =>
       bindM get_heap (fun h =>
-      if check h (f_ann f) v then check_loop rest r else raise PTypeCheckC)))
+      match check vis h (f_ann f) v with Ok _ => check_loop vis rest r | Raise e => raise e end)))
     end.
   (* self.validate_types(): attribute lookup on type(self) = C finds the method of the nearest
      decorated class; its `fields(new_class)` are that class's fields *)
-  Definition validate_types (C : chain) (r : nat) : M unit :=
+  Definition validate_types (vis : bool) (C : chain) (r : nat) : M unit :=
     if has_meth MValidateTypes then
       match nearest_deco C with
       | None => raise AttributeErrorC
-      | Some D => check_loop (sel_fields (dc_fields D)) r
+      | Some D => check_loop vis (sel_fields (dc_fields D)) r
       end
     else raise AttributeErrorC.
 
@@ -278,30 +287,45 @@ Section Sem.
     | [] => false
     | L :: rest => is_some (l_pi L) || has_pi rest || (ts_installed L && install_before)
     end.
-  Fixpoint run_steps (old validate : M unit) (steps : list pi_step) : M unit :=
+  (* `context = get_context(depth=3, increase_depth_if_name_matches=[copy_with, deep_copy_with])` inside a
+     new_post_init that has `outer` other new_post_init frames between itself and the generated __init__.
+     Frames: 0 get_context, 1 this new_post_init, 2 .. the outer ones .., then __init__, then
+     the caller (constructor call) | dataclasses.replace, copy_with, caller | deep_copy_with, caller.
+     Frame 3 is the caller's only for outer = 0 on the constructor path; on the deep_copy_with path its
+     name matches and one more frame is skipped; on the copy_with path it is `replace`. *)
+  Definition caller_visible (v : via) (outer : nat) : bool :=
+    match outer, v with O, VCtor | O, VDeep => true | _, _ => false end.
+  (* the local variable `context` of new_post_init: None = not assigned yet *)
+  Fixpoint run_steps (old : M unit) (validate : bool -> M unit) (vis : bool) (ctxv : option bool)
+           (steps : list pi_step) : M unit :=
     match steps with
     | [] => ret tt
-    | s :: r =>
-      bindM (match s with SCallOld => old | SGetContext => ret tt | SValidate => validate end)
-            (fun _ => run_steps old validate r)
+    | SCallOld :: r => bindM old (fun _ => run_steps old validate vis ctxv r)
+    | SGetContext :: r => run_steps old validate vis (Some vis) r
+    | SValidate :: r =>
+      match ctxv with
+      | None => raise NameErrorC                      (* UnboundLocalError *)
+      | Some b => bindM (validate b) (fun _ => run_steps old validate vis ctxv r)
+      end
     end.
-  Fixpoint run_pi (f : pifun) (validate : M unit) : M unit :=
+  Fixpoint run_pi (f : pifun) (v : via) (outer : nat) (validate : bool -> M unit) : M unit :=
     match f with
     | PFNone => raise AttributeErrorC
     | PFNoop => ret tt
     | PFUser c b => bindM (emit (EPi c)) (fun _ => match b with PIRet => ret tt | PIRaise e => raise e end)
     | PFNew old =>
       match p_ts P with
-      | Some ts => run_steps (run_pi old validate) validate (ts_steps ts)
+      | Some ts => run_steps (run_pi old v (S outer) validate) validate (caller_visible v outer) None (ts_steps ts)
       | None => ret tt
       end
     end.
 
-  Definition construct (C : chain) (kw : list (name * value)) : M nat :=
+  Definition construct (v : via) (C : chain) (kw : list (name * value)) : M nat :=
     bindM (candidate C kw) (fun r =>
       match nearest_deco C with
       | Some D =>
-        if init_calls_pi D then bindM (run_pi (resolve_pi C) (validate_types C r)) (fun _ => ret r) else ret r
+        if init_calls_pi D then bindM (run_pi (resolve_pi C) v 0 (fun vis => validate_types vis C r)) (fun _ => ret r)
+        else ret r
       | None => ret r
       end).
 
@@ -322,7 +346,7 @@ Section Sem.
     if has_meth MCopyWith then
       match nearest_deco C with
       | None => raise TypeErrorC
-      | Some D => bindM (replace_changes (dc_fields D) r kw kw) (fun ch => construct C ch)
+      | Some D => bindM (replace_changes (dc_fields D) r kw kw) (fun ch => construct VCopy C ch)
       end
     else raise AttributeErrorC.
 
@@ -354,7 +378,7 @@ Section Sem.
     | CtorNewClass => match nearest_deco C with Some D => D | None => C end
     end.
   Definition deep_copy_with (C : chain) (r : nat) (kw : list (name * value)) : M nat :=
-    if has_meth MDeepCopyWith then bindM (deep_args C r kw) (fun args => construct (deep_ctor C) args)
+    if has_meth MDeepCopyWith then bindM (deep_args C r kw) (fun args => construct VDeep (deep_ctor C) args)
     else raise AttributeErrorC.
 
   (* ------------------------------------------------------------ the three construction paths *)
@@ -364,7 +388,7 @@ Section Sem.
   | ByDeep (r0 : nat) (kw : list (name * value)).
   Definition run_path (C : chain) (p : path) : M nat :=
     match p with
-    | ByCtor kw => construct C kw
+    | ByCtor kw => construct VCtor C kw
     | ByCopy r0 kw => copy_with C r0 kw
     | ByDeep r0 kw => deep_copy_with C r0 kw
     end.
@@ -378,6 +402,8 @@ Section Sem.
   Definition path_candidate (C : chain) (p : path) : M nat := bindM (path_args C p) (candidate C).
   Definition path_kw (p : path) : list (name * value) :=
     match p with ByCtor kw | ByCopy _ kw | ByDeep _ kw => kw end.
+  Definition path_via (p : path) : via :=
+    match p with ByCtor _ => VCtor | ByCopy _ _ => VCopy | ByDeep _ _ => VDeep end.
 
   (* the user-written __post_init__ that runs for instances of C (at most one: user bodies are
      abstract effects and do not call super) *)
